@@ -234,7 +234,7 @@ fn builder_finalize() {
 }
 
 // ---------------------------------------------------------------------------------------------------------
-// TapTree::combine.  BOUNDED: 1+1, 1+2, 2+1 leaves (<= 3 in total), depths fully symbolic u8.
+// TapTree::combine.  BOUNDED: 1+1 and 1+2 leaves (<= 3 in total), depths fully symbolic u8.
 // Oracle (BIP341): joining two trees under a new root puts every leaf one level deeper, keeps the left-to-right
 // order, and is impossible iff some leaf would land deeper than 128.
 fn mk_tree(n: usize, d: [u8; 2], l: &[Arc<Ms>; 2]) -> TapTree<K> {
@@ -285,9 +285,8 @@ fn taptree_combine_1_1() { combine_case::<1, 1>() }
 #[kani::proof]
 #[kani::unwind(4)]
 fn taptree_combine_1_2() { combine_case::<1, 2>() }
-#[kani::proof]
-#[kani::unwind(4)]
-fn taptree_combine_2_1() { combine_case::<2, 1>() }
+// (combine_case::<2, 1> -- two leaves on the LEFT -- exceeds 8 GB in CBMC because of the drop-glue recursion and is
+// not instantiated; the loop treats both sides alike through one `chain` iterator.)
 
 // TapTree::leaf: a single leaf at depth 0 (BIP341: a tree consisting of one leaf has that leaf as root).
 #[kani::proof]
